@@ -167,7 +167,8 @@ theorem asRange_toQ (r : Rng) : r.toQ.asRange = some r := rfl
 theorem popOverlap_some {q : Rng} {l : List Q} {r : Rng} {l' : List Q}
     (h : popOverlap q l = some (r, l')) :
     q.overlaps r = true ∧ (∀ x ∈ l', x ∈ l) ∧
-      (∀ env d, satAny env l d = (sat env r.toQ d || satAny env l' d)) := by
+      (∀ env d, satAny env l d = (sat env r.toQ d || satAny env l' d)) ∧
+      (∃ s ∈ l, s.asRange = some r) := by
   induction l generalizing r l' with
   | nil => simp [popOverlap] at h
   | cons s rest ih =>
@@ -178,7 +179,7 @@ theorem popOverlap_some {q : Rng} {l : List Q} {r : Rng} {l' : List Q}
       · rename_i hov
         simp only [Option.some.injEq, Prod.mk.injEq] at h
         obtain ⟨rfl, rfl⟩ := h
-        refine ⟨hov, fun x hx => List.mem_cons_of_mem _ hx, fun env d => ?_⟩
+        refine ⟨hov, fun x hx => List.mem_cons_of_mem _ hx, fun env d => ?_, s, List.mem_cons_self .., hr0⟩
         simp [satAny, asRange_some hr0]
       · cases hp : popOverlap q rest with
         | none => simp [hp] at h
@@ -186,8 +187,8 @@ theorem popOverlap_some {q : Rng} {l : List Q} {r : Rng} {l' : List Q}
           obtain ⟨r', rest'⟩ := p
           simp only [hp, Option.map_some, Option.some.injEq, Prod.mk.injEq] at h
           obtain ⟨rfl, rfl⟩ := h
-          obtain ⟨h1, h2, h3⟩ := ih hp
-          refine ⟨h1, ?_, fun env d => ?_⟩
+          obtain ⟨h1, h2, h3, s0, hs0, hsr0⟩ := ih hp
+          refine ⟨h1, ?_, fun env d => ?_, s0, List.mem_cons_of_mem _ hs0, hsr0⟩
           · intro x hx
             rcases List.mem_cons.mp hx with rfl | hx
             · exact List.mem_cons_self ..
@@ -200,8 +201,8 @@ theorem popOverlap_some {q : Rng} {l : List Q} {r : Rng} {l' : List Q}
         obtain ⟨r', rest'⟩ := p
         simp only [hp, Option.map_some, Option.some.injEq, Prod.mk.injEq] at h
         obtain ⟨rfl, rfl⟩ := h
-        obtain ⟨h1, h2, h3⟩ := ih hp
-        refine ⟨h1, ?_, fun env d => ?_⟩
+        obtain ⟨h1, h2, h3, s0, hs0, hsr0⟩ := ih hp
+        refine ⟨h1, ?_, fun env d => ?_, s0, List.mem_cons_of_mem _ hs0, hsr0⟩
         · intro x hx
           rcases List.mem_cons.mp hx with rfl | hx
           · exact List.mem_cons_self ..
@@ -231,13 +232,23 @@ theorem absorb_of_none {i : Bool} {q : Rng} {rest : List Q} (h : popOverlap q re
     rw [h] at h'
     simp at h'
 
-/-- Meaning of a range clause: some non-empty term of the field lies in the interval. -/
-theorem sat_range (env : Env) (r : Rng) (d : Doc) :
-    sat env r.toQ d = (d.toks r.f).any fun x => x != [] && decide (r.mem x) := by
-  simp only [Rng.toQ, sat]
+/-- The empty term is harmless for every `TermRange` clause of the list. -/
+def LOk (d : Doc) (l : List Q) : Prop := ∀ s ∈ l, ∀ r, s.asRange = some r → ROk d r
+
+theorem LOk.of_noEmpty {d : Doc} (h : d.NoEmpty) (l : List Q) : LOk d l := fun _ _ _ _ => Or.inr h
+
+theorem LOk.tail {d : Doc} {s : Q} {l : List Q} (h : LOk d (s :: l)) : LOk d l :=
+  fun x hx r hr => h x (List.mem_cons_of_mem _ hx) r hr
+
+theorem LOk.sub {d : Doc} {l l' : List Q} (h : LOk d l) (hs : ∀ x ∈ l', x ∈ l) : LOk d l' :=
+  fun x hx r hr => h x (hs x hx) r hr
+
+/-- Meaning of a range clause (empty term harmless): some term of the field lies in the interval. -/
+theorem sat_range (env : Env) (r : Rng) (d : Doc) (he : ROk d r) :
+    sat env r.toQ d = (d.toks r.f).any fun x => decide (r.mem x) := by
+  rw [sat_range_ROk env r d he]
   congr 1
   funext x
-  congr 1
   rw [Bool.eq_iff_iff, inRange_iff]
   exact decide_eq_true_iff.symm
 
@@ -251,33 +262,61 @@ theorem any_or_split {α} (l : List α) (p q : α → Bool) :
 
 theorem Rng.merge_f (a b : Rng) (i : Bool) : (a.merge b i).f = a.f := rfl
 
-theorem sat_merge_union (env : Env) (a b : Rng) (d : Doc) (h : a.overlaps b = true) :
+/-- The start of a merged range is the start of one of the two: an exclusive open start does not
+    appear out of nothing. -/
+theorem Rng.merge_openExcl (a b : Rng) (i : Bool) (ha : a.openExcl = false) (hb : b.openExcl = false) :
+    (a.merge b i).openExcl = false := by
+  have key : ∀ (lo : Option Text) (lx : Bool), (lx && (lo == none || lo == some [])) = false →
+      (((cmpStart lo lx).adj == 1) && ((cmpStart lo lx).b.toOpt == none || (cmpStart lo lx).b.toOpt == some []))
+        = false := by
+    intro lo lx h
+    cases lo with
+    | none => simp [cmpStart]
+    | some t => cases lx <;> simp_all [cmpStart, Bnd.toOpt]
+  have ka := key a.lo a.lox ha
+  have kb := key b.lo b.lox hb
+  unfold Rng.openExcl Rng.merge
+  simp only
+  split
+  · exact kb
+  · split
+    · exact ka
+    · split
+      · simp only [Cmp.max]; split <;> assumption
+      · simp only [Cmp.min]; split <;> assumption
+
+theorem ROk.merge {d : Doc} {a b : Rng} (i : Bool) (ha : ROk d a) (hb : ROk d b) : ROk d (a.merge b i) := by
+  rcases ha with ha | ha
+  · rcases hb with hb | hb
+    · exact Or.inl (Rng.merge_openExcl a b i ha hb)
+    · exact Or.inr hb
+  · exact Or.inr ha
+
+theorem sat_merge_union (env : Env) (a b : Rng) (d : Doc) (h : a.overlaps b = true)
+    (ha : ROk d a) (hb : ROk d b) :
     sat env (a.merge b false).toQ d = (sat env a.toQ d || sat env b.toQ d) := by
   have hf := Rng.overlaps_field h
-  rw [sat_range, sat_range, sat_range, Rng.merge_f, ← hf, ← any_or_split]
+  rw [sat_range env _ d (ROk.merge false ha hb), sat_range env a d ha, sat_range env b d hb, Rng.merge_f, ← hf,
+    ← any_or_split]
   congr 1
   funext x
   rw [Bool.eq_iff_iff]
   have := Rng.merge_union a b h x
-  simp only [Bool.and_eq_true, bne_iff_ne, ne_eq, decide_eq_true_eq, Bool.or_eq_true]
-  constructor
-  · rintro ⟨h1, h2⟩
-    rcases this.mp h2 with h3 | h3
-    · exact Or.inl ⟨h1, h3⟩
-    · exact Or.inr ⟨h1, h3⟩
-  · rintro (⟨h1, h2⟩ | ⟨h1, h2⟩)
-    · exact ⟨h1, this.mpr (Or.inl h2)⟩
-    · exact ⟨h1, this.mpr (Or.inr h2)⟩
+  simp only [decide_eq_true_eq, Bool.or_eq_true]
+  exact this
 
-theorem absorb_satAny (env : Env) (d : Doc) (q : Rng) (rest : List Q) :
+theorem absorb_satAny (env : Env) (d : Doc) (q : Rng) (rest : List Q) (hq : ROk d q) (hl : LOk d rest) :
     satAny env ((absorb false q rest).1.toQ :: (absorb false q rest).2) d
-      = satAny env (q.toQ :: rest) d := by
+      = satAny env (q.toQ :: rest) d ∧ ROk d (absorb false q rest).1 := by
   fun_induction absorb false q rest with
-  | case1 q rest h => rfl
+  | case1 q rest h => exact ⟨rfl, hq⟩
   | case2 q rest r rest' h ih =>
-    obtain ⟨hov, _, hsat⟩ := popOverlap_some h
-    rw [ih]
-    simp only [satAny, hsat env d, sat_merge_union env q r d hov, Bool.or_assoc]
+    obtain ⟨hov, hmem, hsat, s, hs, hsr⟩ := popOverlap_some h
+    have hr : ROk d r := hl s hs r hsr
+    obtain ⟨ih1, ih2⟩ := ih (ROk.merge false hq hr) (hl.sub hmem)
+    refine ⟨?_, ih2⟩
+    rw [ih1]
+    simp only [satAny, hsat env d, sat_merge_union env q r d hov hq hr, Bool.or_assoc]
 
 theorem absorb_mem (i : Bool) (q : Rng) (rest : List Q) :
     ∀ x ∈ (absorb i q rest).2, x ∈ rest := by
